@@ -592,6 +592,11 @@ impl CheckCtx {
         let wall = self.started.elapsed().as_secs_f64();
         let known = KnownFindings::load(&self.verif_dir);
         let mut exit = 0;
+        if self.evaluations == 0 {
+            eprintln!("HARNESS ERROR: nothing was executed (PDSIM_ONLY matched no scenario of this check?)");
+            println!("HARNESS ERROR: {} executed no run; no verdict", self.prop);
+            return 2;
+        }
         let mut lines = vec![];
         let mut unknown = 0;
         let mut known_hit = vec![];
